@@ -8,6 +8,7 @@ CONSTANTS
   GCOn = FALSE
   MTB = 0
   GCP = 1
+  JumpOn = FALSE
   Dev = {}
 INVARIANTS NoDead HeightBound RecoverOK DiskCoherent ResetConfluence ResumeOK MarkersFollowData
 CHECK_DEADLOCK FALSE
